@@ -105,6 +105,14 @@ def larger_configs(tier):
         for noise in (('depol', 'Zbias') if tier != 'quick' else ('depol',)):
             cfgs.append({'decoder': 'BeliefPropagationOSDDecoder', 'code': cname,
                          'size': list(size), 'noise': noise, 'p': p, 'dec_kwargs': dict(bpu)})
+    # non-CSS (Clifford-deformed) codes take the decoder's other branch: one
+    # joint BP-OSD object whose internal state lives in the compiled library
+    for cname, size, cd, p in [('Toric2DCode', (3, 3), 'XZZX', 0.1), ('Toric2DCode', (3, 4), 'XY', 0.1),
+                               ('Planar2DCode', (3, 3), 'XZZX', 0.1), ('Toric3DCode', (2, 2, 3), 'XZZX', 0.05)]:
+        for kw_ in (bp, {}):
+            cfgs.append({'decoder': 'BeliefPropagationOSDDecoder', 'code': cname, 'size': list(size),
+                         'code_def': cd, 'code_def_kw': {}, 'noise': 'depol', 'p': p,
+                         'dec_kwargs': dict(kw_)})
     # two decoder objects at different rates taking turns (nothing may leak from
     # one to the other), on channels with structural zeros
     for cname, size, noise, nd, p, ip in [('Toric2DCode', (3, 3), 'X', None, 0.1, 0.45),
